@@ -51,10 +51,13 @@ PendOf(s) == {<<s[i][1], s[i][2], s[i][3]>> : i \in 1..Len(s)}
 TInit == /\ l = 1 /\ free = {} /\ pend = {} /\ readers = <<>>
          /\ tree = (1 :> {3}) /\ flp = (1 :> {2}) /\ flc = (1 :> {}) /\ vhwm = (1 :> 4)
          /\ cur = 1 /\ w = NoW /\ fs = FS0
-         /\ opt = [ps |-> 4096, noFLSync |-> FALSE, noGrowSync |-> FALSE, maxSize |-> 0, readOnly |-> FALSE]
+         /\ opt = [ps |-> 4096, noFLSync |-> FALSE, noGrowSync |-> FALSE, maxSize |-> 0, readOnly |-> FALSE, allocSize |-> 16777216]
 
 OptOf(o) == [ps |-> o.pageSize, noFLSync |-> o.noFreelistSync, noGrowSync |-> o.noGrowSync, maxSize |-> o.maxSize,
-             readOnly |-> o.readOnly]
+             readOnly |-> o.readOnly, allocSize |-> IF o.allocSize = 0 THEN 16777216 ELSE o.allocSize]
+\* C18: the size the file will be grown to if the transaction commits with high-water mark h while the map
+\* has size mm (db.go:1223-1271): what the admission check of allocate() must predict
+PredictedFileSize(h, mm) == GrowSize(mm, (h + 1) * opt.ps, opt.allocSize)
 
 TReset == /\ IsEvent("Reset")
           /\ free' = {} /\ pend' = {} /\ readers' = <<>>
@@ -134,12 +137,20 @@ TAlloc == /\ IsEvent("Alloc")
                        /\ w' = [w EXCEPT !.allocd = @ \cup pg, !.runs = @ \cup {<<E.pgid, E.n>>}, !.hwm = @ + E.n]
                /\ Expect(E.hwm = w'.hwm, <<"high-water mark", w'.hwm>>)
                /\ Expect(E.pgid >= 2, "meta page handed out")
+               \* an allocation at the end of the file is only admitted if the growth it implies stays within MaxSize
+               /\ Expect(E.fromFree \/ opt.maxSize = 0 \/ PredictedFileSize(E.hwm, E.datasz) <= opt.maxSize,
+                         <<"allocation admitted although the file would have to grow beyond MaxSize (C18)", PredictedFileSize(E.hwm, E.datasz), opt.maxSize>>)
                /\ Expect(pg \cap Visible = {}, <<"allocated a page of a visible version (C06)", pg \cap Visible>>)
                /\ Expect(pg \cap PP = {}, "allocated a pending page")
           /\ UNCHANGED <<pend, readers, tree, flp, flc, vhwm, cur, fs, opt>>
 
 TAllocRefused == /\ IsEvent("AllocRefused")
                  /\ Expect(w.open /\ opt.maxSize > 0, "size refusal without MaxSize")
+                 \* ... and it is only refused if it really would not fit
+                 /\ LET minsz == (E.hwm + E.n + 1) * opt.ps
+                        mm == IF minsz < E.datasz THEN E.datasz ELSE MmapSize(minsz)
+                    IN Expect(GrowSize(mm, minsz, opt.allocSize) > opt.maxSize,
+                              <<"allocation refused although the file would stay within MaxSize (C18)", GrowSize(mm, minsz, opt.allocSize), opt.maxSize>>)
                  /\ w' = [w EXCEPT !.failed = TRUE]
                  /\ UNCHANGED <<free, pend, readers, tree, flp, flc, vhwm, cur, fs, opt>>
 
